@@ -290,3 +290,160 @@ Example C05_example :
   /\ prefix_closed (fun n => mem n ["Z"; "A"]%string) (fun n => negb (mem n ["Z"]%string)) ["Z"; "A"]%string false = false
   /\ prefix_closed (fun n => mem n ["Z"; "A"]%string) (fun n => negb (mem n ["A"]%string)) ["Z"; "A"]%string false = true.
 Proof. vm_compute. repeat split. Qed.
+
+(** ---- On-disk pools (ArrayPool): the connection between this property's store (Store/Pool.v) and
+    C06's on-disk store (Store/Npy.v).  Proofs/C05_OnDisk.v; C06's theorems are used as stated.
+    [pop] = the pool's operations on one store (add_batch / get_batch / flush / close+open / pickle),
+    [pool_run] = their run over the model of the NpyStore object and its file ([k in store] decided by
+    the object's n_batches), [compile] = the same operations as a history of Store/Npy.v,
+    [store_of_batches enc l] = the store of Pool.v that holds (the encoding of) batch i of [l] at
+    index i, [disk_get] = what the PoolLoader reads from the file, [added 0 ps] = for 0, 1, 2, ...
+    the batch of the first add_batch at that index. ---- *)
+From Elfi Require Import Store.Npy Proofs.C06_Npy Proofs.C05_OnDisk.
+
+(** (1) reading batch i of the abstraction is reading the i-th batch of C06's list of batches *)
+Theorem C05_on_disk_read_is_list_read :
+  forall enc l i, store_get (store_of_batches enc l) i = option_map enc (nth_error l i).
+Proof. exact store_reads. Qed.
+Print Assumptions C05_on_disk_read_is_list_read.
+
+(** (2) an append on disk is add_to_store at the next index; add_to_store at a held index is the identity *)
+Theorem C05_on_disk_append_is_add_to_store :
+  forall enc l b, store_of_batches enc (l ++ [b]) = add_to_store (store_of_batches enc l) (List.length l) (enc b).
+Proof. exact store_append. Qed.
+Print Assumptions C05_on_disk_append_is_add_to_store.
+
+Theorem C05_on_disk_held_add_is_identity :
+  forall enc l i v, i < List.length l -> add_to_store (store_of_batches enc l) i v = store_of_batches enc l.
+Proof. exact store_held. Qed.
+Print Assumptions C05_on_disk_held_add_is_identity.
+
+(** the history of store operations a pool produces never overwrites, deletes or clears: every
+    [store[i] = b] it issues has [len(store) <= i] (for every sequence of pool operations) ... *)
+Theorem C05_pool_never_overwrites_on_disk :
+  forall ps L, sets_ok le L (compile L ps).
+Proof. exact compile_never_overwrites. Qed.
+Print Assumptions C05_pool_never_overwrites_on_disk.
+
+(** ... and [i = len(store)], an append, when the batch indices arrive without gaps *)
+Theorem C05_pool_writes_are_appends :
+  forall ps L, contig (List.length L) ps -> sets_ok eq L (compile L ps).
+Proof. exact compile_exact_appends. Qed.
+Print Assumptions C05_pool_writes_are_appends.
+
+(** the callbacks of a first run over batches n, n+1, ... are exactly one append per batch; those of
+    a later run over held batches only ask [i in store] *)
+Theorem C05_first_run_callbacks_are_appends :
+  forall bl L, compile L (callbacks (List.length L) bl)
+    = List.concat (map (fun kb : nat * batch => [Query; Set_ (fst kb) true (snd kb)])
+                  (combine (seq (List.length L) (List.length bl)) bl)).
+Proof. exact callbacks_compile. Qed.
+Print Assumptions C05_first_run_callbacks_are_appends.
+
+Theorem C05_later_run_callbacks_touch_nothing :
+  forall bl L n, n + List.length bl <= List.length L -> compile L (callbacks n bl) = map (fun _ => Query) bl.
+Proof. exact callbacks_held. Qed.
+Print Assumptions C05_later_run_callbacks_touch_nothing.
+
+(** the pool over the store object is a history of Store/Npy.v (by C06_refinement, which makes the
+    object's answer to [i in store] the answer of the list of batches) *)
+Theorem C05_pool_run_is_store_history :
+  forall bs o ps, 0 < bs -> wfpool bs ps ->
+    pool_run bs o 1 fresh_mem empty_file ps = start current bs o (compile [] ps).
+Proof. exact pool_run_start. Qed.
+Print Assumptions C05_pool_run_is_store_history.
+
+(** (3) an on-disk ArrayPool store behaves as the in-memory store of Pool.v: after any history of pool
+    operations on a new store (adds without index gaps, gets, flush, close+open, pickle, any order,
+    any buffering) the store reports the list [Bs] whose abstraction is the store Pool.v computes, and
+    for every k the loader reads from the file the batch of the first add_batch for k, whose encoding
+    is what Pool.v's get_batch returns for k. *)
+Theorem C05_on_disk_store_is_pool_store :
+  forall enc bs o ps, 0 < bs -> wfpool bs ps -> contig 0 ps ->
+  forall m f i, pool_run bs o 1 fresh_mem empty_file ps = (m, f, i) ->
+  let Bs := fold_left disk_step ps [] in
+  view bs m f = (List.length Bs, Some Bs) /\
+  store_of_batches enc Bs = fold_left (pool_step enc) ps (Some []) /\
+  forall k, disk_get bs m f k = nth_error (added 0 ps) k /\
+            option_map enc (disk_get bs m f k) = store_get (fold_left (pool_step enc) ps None) k.
+Proof. exact on_disk_store_is_pool_store. Qed.
+Print Assumptions C05_on_disk_store_is_pool_store.
+
+(** get_batch of a held batch does not raise (C06_queries_preserve) *)
+Theorem C05_on_disk_get_no_error :
+  forall bs o ps k, 0 < bs -> wfpool bs ps ->
+  forall m f i, pool_run bs o 1 fresh_mem empty_file ps = (m, f, i) -> k < m_nb m ->
+  let h := hstep current bs o i m f (Read k) in
+  r_err h = false /\ view bs (r_mem h) (r_file h) = view bs m f.
+Proof. exact on_disk_get_no_error. Qed.
+Print Assumptions C05_on_disk_get_no_error.
+
+(** after ArrayPool.flush / close+open / pickle the file loads (numpy.load) to the added batches
+    (C06_flush_loads); close+open and pickle+unpickle succeed and the new object reads the same
+    batches (C06_reopen_restores) *)
+Theorem C05_on_disk_flush_loads :
+  forall bs o ps p, 0 < bs -> wfpool bs ps -> p = PFlush \/ p = PReopen \/ p = PPickle ->
+  forall m f i, pool_run bs o 1 fresh_mem empty_file (ps ++ [p]) = (m, f, i) ->
+  0 < List.length (added 0 ps) ->
+  f_buf f = [] /\ loads (f_disk f) = Some (flat (added 0 ps)).
+Proof. exact on_disk_flush_loads. Qed.
+Print Assumptions C05_on_disk_flush_loads.
+
+Theorem C05_on_disk_reopen_restores :
+  forall bs o ps op, 0 < bs -> wfpool bs ps -> op = Reopen \/ op = Pickle ->
+  forall m f i, pool_run bs o 1 fresh_mem empty_file ps = (m, f, i) -> 0 < List.length (added 0 ps) ->
+  let h := hstep current bs o i m f op in
+  r_err h = false /\ forall k, disk_get bs (r_mem h) (r_file h) k = disk_get bs m f k.
+Proof. exact on_disk_reopen_restores. Qed.
+Print Assumptions C05_on_disk_reopen_restores.
+
+(** a kill after a completed flush of a store that held a batch, at any low-level operation of any
+    later store operation: the file loads to a prefix of the added batches that contains everything
+    held at the flush (C06_crash_safe + the pool never overwrites) *)
+Theorem C05_on_disk_crash_prefix :
+  forall bs o ps pre fl mid op tail j, 0 < bs -> wfpool bs ps ->
+  compile [] ps = pre ++ fl :: mid ++ op :: tail -> is_flush fl = true ->
+  0 < List.length (spec (pre ++ [fl])) ->
+  exists n, List.length (spec (pre ++ [fl])) <= n /\
+    loads (crash_disk current bs o (pre ++ fl :: mid) op j) = Some (flat (firstn n (added 0 ps))).
+Proof. exact on_disk_crash_prefix. Qed.
+Print Assumptions C05_on_disk_crash_prefix.
+
+(** the abstraction forgets nothing when the encoding of batches as values is injective *)
+Theorem C05_store_abstraction_injective :
+  forall enc, (forall a b, enc a = enc b -> a = b) ->
+  forall l1 l2, store_of_batches enc l1 = store_of_batches enc l2 -> l1 = l2.
+Proof. exact store_of_batches_inj. Qed.
+Print Assumptions C05_store_abstraction_injective.
+
+(** Non-vacuity: a store with 2 rows per batch; batches 0 and 1 are added, the file flushed, a second
+    run offers other values for 0 and 1 (ignored on both sides), the store is closed and reopened,
+    batch 2 is added, the pool pickled.  The loader reads from the file what Pool.v's store holds. *)
+Definition c5_enc (b : batch) : value :=
+  VApp OpTuple (map (fun r => VApp OpTuple (map (fun c => VConst (Z.of_N c)) r) []) b) [].
+Definition c5_b0 : batch := [[1]; [2]]%N.
+Definition c5_b1 : batch := [[3]; [4]]%N.
+Definition c5_bx : batch := [[9]; [9]]%N.
+Definition c5_pops : list pop :=
+  [PAdd 0 c5_b0; PGet 0; PAdd 1 c5_b1; PFlush; PAdd 0 c5_bx; PGet 1; PReopen; PAdd 1 c5_bx; PAdd 2 c5_bx;
+   PPickle; PGet 2; PGet 3].
+
+Example C05_on_disk_example :
+  wfpool 2 c5_pops /\ contig 0 c5_pops
+  /\ (let '(m, f, _) := pool_run 2 (fun _ => 0) 1 fresh_mem empty_file c5_pops in
+      (map (disk_get 2 m f) [0; 1; 2; 3], loads (f_disk f)))
+     = ([Some c5_b0; Some c5_b1; Some c5_bx; None], Some [[1]; [2]; [3]; [4]; [9]; [9]]%N)
+  /\ map (store_get (fold_left (pool_step c5_enc) c5_pops None)) [0; 1; 2; 3]
+     = [Some (c5_enc c5_b0); Some (c5_enc c5_b1); Some (c5_enc c5_bx); None]
+  /\ compile [] c5_pops
+     = [Query; Set_ 0 true c5_b0; Query; Read 0; Query; Set_ 1 true c5_b1; Flush; Query; Query; Read 1; Reopen;
+        Query; Query; Set_ 2 true c5_bx; Pickle; Query; Read 2; Query]
+  (* where the two stores differ: an index gap.  The dict of Pool.v takes batch 1 first, the on-disk
+     store raises and holds nothing ([contig] excludes it; a BatchHandler hands out 0, 1, 2, ...) *)
+  /\ contig 0 [PAdd 1 c5_b0] = (1 <= 0 /\ True)
+  /\ store_get (pool_step c5_enc None (PAdd 1 c5_b0)) 1 = Some (c5_enc c5_b0)
+  /\ (let '(m, f, _) := pool_run 2 (fun _ => 0) 1 fresh_mem empty_file [PAdd 1 c5_b0] in disk_get 2 m f 1) = None.
+Proof.
+  split; [repeat constructor|]. split; [simpl; repeat split; repeat constructor|].
+  repeat split; vm_compute; reflexivity.
+Qed.
